@@ -197,6 +197,11 @@ def _ipv6(ctx, rep, cl, thorough=False, parse_only=False):
         for j in range(i):
             sel = sel - PRE[j]
         selectable.append(not sel.is_empty())
+        if not sel.is_empty():
+            beyond = sel.used_alphabet() - (specs.T6 | CharSet.of("."))
+            rep.ob(cl + ".ipv6-match-is-address-text", "IPv6_PATTERN[alt %d]" % i, not beyond,
+                   "alternative %d can be selected and consumes characters %s that are not part of an address token (e.g. a %%zone suffix): the whole match is replaced by the canonical address text, so that text is silently dropped; e.g. %r" % (i, beyond.describe(), sel.shortest(2)), loc,
+                   witness=(sel.shortest(1) or [None])[0], key="%s.ipv6-match-is-address-text|alt:%s" % (cl, _alt_id(alts[i])))
         bad = (sel - ACC) - PREP[i]
         ok = bad.is_empty()
         w = bad.shortest(10 if thorough else 3)
@@ -635,6 +640,8 @@ def c11(ctx, rep):
             bnd = bind_args(cs.term, init, 1) or {}
             rep.ob("C11.wiring", "FileAnonymizer.__init__", bnd.get(init.params[1]) == ("param", "as_numbers") and bnd.get("salt") == ("attr", SELF, "salt"),
                    "AsNumberAnonymizer(%s)" % {k: show(v) for k, v in bnd.items()}, cs.where, key="C11.wiring|FileAnonymizer.__init__")
+    swallowed = [pth.describe()[-120:] for pth in A.paths(f_fa).paths if pth.feasible() and pth.kind != "raise" and any(t[0] == "except" for t, pol in pth.atoms())]
+    rep.ob("C11.stage-failure-not-swallowed", "FileAnonymizer.__init__", not swallowed, "the constructor catches an exception and carries on (%s): an invalid entry in the AS-number list would silently disable the stage and leave every listed number in the output" % swallowed[:2], where(f_fa), key="C11.stage-failure-not-swallowed|FileAnonymizer.__init__")
     order = [s for s, _ in stage_order(ctx)]
     rep.ob("C11.stage-last", "anonymize_io", bool(order) and order[-1] == "as", "AS-number stage is the last stage (%s): nothing rewrites its output" % order, where(p.find_function("FileAnonymizer.anonymize_io")), nontrivial=False)
 
